@@ -551,7 +551,7 @@ func c01Pen(c *Ctx, info *types.Info, render *FuncInfo, g *FG, rems []*Emission)
 		}
 		n++
 		key := fmt.Sprintf("%s/pen updated after delta %q", render.Name, e.Templates[0])
-		c.check(!g.reachesNextIteration(e.Loc, isPenAssign, enclosingLoop(c, render, e.Call)), "C01.g", key, e.Call.Pos(), "the pen assignment is on every path to the next cell", "after this style change is written the next cell can be reached without recording the new pen: later deltas are computed against a stale pen")
+		c.check(!g.reachesNextIteration(e.Loc, isPenAssign, enclosingLoopWith(c, render, e.Call, isPenAssign)), "C01.g", key, e.Call.Pos(), "the pen assignment is on every path to the next cell", "after this style change is written the next cell can be reached without recording the new pen: later deltas are computed against a stale pen")
 	}
 	if n == 0 {
 		c.undecided("C01.g", render.Name+"/style deltas", render.Decl.Pos(), "no style-delta emission found")
@@ -779,7 +779,7 @@ func c01Covered(c *Ctx, info *types.Info, render *FuncInfo, g *FG, rems []*Emiss
 			continue
 		}
 		key := fmt.Sprintf("%s/column advances past the cells a glyph covers (%s)", render.Name, types.ExprString(e.ArgExpr))
-		c.check(!g.reachesNextIteration(e.Loc, isAdvance, enclosingLoop(c, render, e.Call)), "C01.i", key, e.Call.Pos(), "col += advance(next) on every path to the next cell", "after a glyph is written the next iteration can start without skipping the cells it covers: they are painted over the glyph's right half")
+		c.check(!g.reachesNextIteration(e.Loc, isAdvance, enclosingLoopWith(c, render, e.Call, isAdvance)), "C01.i", key, e.Call.Pos(), "col += advance(next) on every path to the next cell", "after a glyph is written the next iteration can start without skipping the cells it covers: they are painted over the glyph's right half")
 		// a nulling store is reachable after the glyph write before the next cell
 		okNull := false
 		for _, st := range stores {
@@ -789,6 +789,22 @@ func c01Covered(c *Ctx, info *types.Info, render *FuncInfo, g *FG, rems []*Emiss
 		}
 		c.check(okNull, "C01.i", fmt.Sprintf("%s/covered cells nulled after the glyph write (%s)", render.Name, types.ExprString(e.ArgExpr)), e.Call.Pos(), "nulling loop follows", "no nulling of covered cells follows this glyph write")
 	}
+}
+
+// enclosingLoopWith returns the innermost for/range statement containing n whose body also contains a node
+// satisfying has (the cell loop, as opposed to an inner loop over a constant table of sequences that writes the
+// deltas); the innermost loop if none does.
+func enclosingLoopWith(c *Ctx, fi *FuncInfo, n ast.Node, has func(ast.Node) bool) ast.Stmt {
+	par := c.P.Parents(fi.Pkg)
+	for cur := par[n]; cur != nil; cur = par[cur] {
+		switch t := cur.(type) {
+		case *ast.ForStmt, *ast.RangeStmt:
+			if containsNode(t, has) {
+				return t.(ast.Stmt)
+			}
+		}
+	}
+	return enclosingLoop(c, fi, n)
 }
 
 // enclosingLoop returns the innermost for/range statement containing n.
